@@ -67,3 +67,40 @@ def run(ctx, rng, n, ops=None):
         if not ok:
             ctx.violation(dict(kind="ft-model", op=req, lean=a["pts"], minifiber=want,
                                obligation="FT.%s (Lean) = minifiber.%s on the same tensor" % (name, name)), False)
+
+
+def run_fibers(ctx, rng, n):
+    """occupancy splitting of one fiber: leader chunk keys (splitEqual) and follower groups (splitNonUniform)"""
+    reqs, expect = [], []
+    for _ in range(n):
+        ext = rng.randint(1, 14)
+        cs = sorted(rng.sample(range(ext), rng.randint(0, ext)))
+        fs = sorted(rng.sample(range(ext), rng.randint(0, ext)))
+        size = rng.randint(1, 5)
+        leader = minifiber.Fiber(cs, [minifiber.Payload(1) for _ in cs])
+        follower = minifiber.Fiber(fs, [minifiber.Payload(1) for _ in fs])
+        up = leader.splitEqual(size)
+        keys = up.getCoords()
+        fup = follower.splitNonUniform(up)
+        groups = {}
+        for k, f in zip(fup.coords, fup.payloads):
+            for c in f.coords:
+                groups[c] = k
+        reqs.append({"op": "ft_fiber", "coords": cs, "n": size, "bounds": keys})
+        expect.append((cs, size, keys, [groups.get(c) for c in cs if True], fs, groups))
+        reqs.append({"op": "ft_fiber", "coords": fs, "n": size, "bounds": keys})
+        expect.append((fs, None, keys, [groups.get(c) for c in fs], fs, groups))
+    for req, (cs, size, keys, want_groups, fs, groups), a in zip(reqs, expect, common.lean_batch(reqs)):
+        if "error" in a:
+            raise common.InternalError("lean: " + a["error"])
+        ok = True
+        if size is not None:
+            ok = a["chunk_keys"] == keys
+            # follower groups of leader coordinates that the follower also holds
+            ok = ok and all(g == groups[c] for c, g in zip(cs, a["groups"]) if c in groups)
+        else:
+            ok = a["groups"] == want_groups
+        ctx.ob(ok); ctx.stat("ft_fiber_occupancy")
+        if not ok:
+            ctx.violation(dict(kind="ft-model", op=req, lean=a, minifiber=dict(keys=keys, groups=sorted(groups.items())),
+                               obligation="FT occupancy model (leaderKeys / groupOf) = minifiber splitEqual / splitNonUniform"), False)
